@@ -58,6 +58,17 @@ class EventBase(ObjectWithFields):
             return value
         return int_or_default
 
+    @staticmethod
+    def positive_int_or_default_from_string(default: int) -> Callable[[str], int]:
+        def positive_int_or_default(value: str):
+            value = DashOption.int_or_none_from_string(value)
+            if value is None:
+                return default
+            if value < 1:
+                raise ValueError(f'value must be greater than zero: {value}')
+            return value
+        return positive_int_or_default
+
     @classmethod
     def get_dash_options(cls) -> list[DashOption]:
         """
@@ -80,7 +91,12 @@ class EventBase(ObjectWithFields):
                 input_type = 'checkbox'
                 cgi_choices = (str(dflt), str(not dflt))
             elif isinstance(dflt, int):
-                from_string = cls.int_or_default_from_string(dflt)
+                if key == 'interval':
+                    # events repeat every "interval" ticks; zero or a negative
+                    # value can never advance through a segment
+                    from_string = cls.positive_int_or_default_from_string(dflt)
+                else:
+                    from_string = cls.int_or_default_from_string(dflt)
                 input_type = 'number'
                 cgi_type = '<int>'
                 cgi_choices = tuple([str(dflt)])
